@@ -6,7 +6,7 @@ Layer B of C01/C13/C09, part 8: `CapsFx` for the whole class `XtermLike` — the
   palette colour (`rc.fit`) for RGB colours on palette terminals and for palette indices the terminal does not have;
 * `xl_underline_effect` — underline colour (indexed / direct / reset) + `smul` + underline style;
 * `xl_setPen_effect` — the whole style block of drawCell for EVERY style without hyperlink: pen = `penOf rc s`;
-* `xl_show_effect` (all four `cnorm` forms + DECSCUSR for the seven cursor styles), `xl_clear_effect` (both `clear` forms);
+* `xl_show_effect` (all four `cnorm` forms + DECSCUSR for the seven cursor styles), `xl_clear_effect` (the three `clear` forms: two CSI spellings, FF);
 * `xl_capsFx : XtermLike rc.ti → rc.d = derive rc.ti → FitOk rc → CapsFx dc rc`.
 
 `FitOk rc` is the only thing asked of the colour-fitting function `rc.fit` (go-colorful's nearest-palette-colour search, an
